@@ -31,7 +31,7 @@ def run(t):
     vh = build_vh()
     r = run_tlc("Cms_MC", "Cms_MC.cfg", timeout=900, want_beh=False)
     tlc_must_pass(r, "Cms_MC")
-    run.add_tlc(r, "Cms mc (15552 shapes x 5 operations; liveness Terminates)")
+    run.add_tlc(r, "Cms mc (31104 shapes x 5 operations; liveness Terminates)")
     for v, inv in NEG:
         tlc_must_fail(run_tlc("Cms_MC", f"Cms_Neg_{v}.cfg", timeout=300, want_beh=False, workers=4), v, expect=inv)
     run.cov["negative_controls"] = [v for v, _ in NEG]
@@ -39,7 +39,7 @@ def run(t):
     tlc_must_pass(g, "Cms_Gen")
     run.add_tlc(g, "Cms gen")
     behs = g.beh
-    if len(behs) < 75000:
+    if len(behs) < 150000:
         raise NoVerdict(f"only {len(behs)} Cms behaviours")
     shards = 8
     per = 900 if t == "quick" else 10 ** 6
@@ -66,7 +66,7 @@ def run(t):
     run.cov["rule"] = (f"{nrun} of {len(behs)} (shape, operation) behaviours (seeded sample in quick, all in thorough; non-DER shapes, which must simply be "
                        "refused, capped at a tenth of a sample): shape = signed-attribute order x certificates 0..2 x opaque extra certificate x CRL x "
                        "TSA key RSA/ECDSA/RSA-PSS x digest parameters NULL/absent x signing time UTC/Generalized/none x multi-valued attribute x nested "
-                       "unsigned token x digest-algorithm SET one/sorted/unsorted x DER/long-form/indefinite lengths; operations RoundTrip, Detach, Embed "
+                       "unsigned token x digest-algorithm SET one/sorted/unsorted x DER/long-form/indefinite lengths x content octets plain / themselves shaped like an OCTET STRING; operations RoundTrip, Detach, Embed "
                        "(real NewRequest/ParseResponse/TimestampAndMarshal, CMS and Authenticode attribute, with and without the cache's "
                        "marshal/unmarshal), EmbedDetach, Resign (catalog signer). Per part: byte equality as the model predicts; canonical DER values "
                        "must re-encode to themselves entirely; third-party and relic signatures re-verified over the emitted bytes; openssl cms "
